@@ -29,7 +29,7 @@ func (w *FilespaceWrapper) Copy(src, dest string) (err error) {
 	if src, err = varutil.ReduceAbsPath(src); err != nil {
 		return err
 	}
-	if dest, err = varutil.ReduceAbsPath(dest); err != nil {
+	if dest, err = reduceNodePath(dest); err != nil {
 		return err
 	}
 	return w.fs.Copy(w.basePath+src, w.basePath+dest)
@@ -40,7 +40,7 @@ func (w *FilespaceWrapper) CopyDirectory(src, dest string) (err error) {
 	if src, err = varutil.ReduceAbsPath(src); err != nil {
 		return err
 	}
-	if dest, err = varutil.ReduceAbsPath(dest); err != nil {
+	if dest, err = reduceNodePath(dest); err != nil {
 		return err
 	}
 	return w.fs.CopyDirectory(w.basePath+src, w.basePath+dest)
@@ -48,10 +48,10 @@ func (w *FilespaceWrapper) CopyDirectory(src, dest string) (err error) {
 
 // CopyFile duplicate a file
 func (w *FilespaceWrapper) CopyFile(src, dest string) (err error) {
-	if src, err = varutil.ReduceAbsPath(src); err != nil {
+	if src, err = reduceNodePath(src); err != nil {
 		return err
 	}
-	if dest, err = varutil.ReduceAbsPath(dest); err != nil {
+	if dest, err = reduceNodePath(dest); err != nil {
 		return err
 	}
 	return w.fs.CopyFile(w.basePath+src, w.basePath+dest)
@@ -77,7 +77,7 @@ func (w *FilespaceWrapper) IsExist(src string) bool {
 // IsFile return true if node exist and is a file
 func (w *FilespaceWrapper) IsFile(src string) bool {
 	var err error
-	if src, err = varutil.ReduceAbsPath(src); err != nil {
+	if src, err = reduceNodePath(src); err != nil {
 		return false
 	}
 	return w.fs.IsFile(w.basePath + src)
@@ -102,7 +102,7 @@ func (w *FilespaceWrapper) MkdirAll(path string, filemode os.FileMode) (err erro
 
 // Writer return a file node writer
 func (w *FilespaceWrapper) Writer(path string) (writer filesystem.Writer, err error) {
-	if path, err = varutil.ReduceAbsPath(path); err != nil {
+	if path, err = reduceNodePath(path); err != nil {
 		return nil, err
 	}
 	return w.fs.Writer(w.basePath + path)
@@ -110,7 +110,7 @@ func (w *FilespaceWrapper) Writer(path string) (writer filesystem.Writer, err er
 
 // Reader return a file node reader
 func (w *FilespaceWrapper) Reader(path string) (reader filesystem.Reader, err error) {
-	if path, err = varutil.ReduceAbsPath(path); err != nil {
+	if path, err = reduceNodePath(path); err != nil {
 		return nil, err
 	}
 	return w.fs.Reader(w.basePath + path)
@@ -118,7 +118,7 @@ func (w *FilespaceWrapper) Reader(path string) (reader filesystem.Reader, err er
 
 // ReadFile return file data
 func (w *FilespaceWrapper) ReadFile(src string) (data []byte, err error) {
-	if src, err = varutil.ReduceAbsPath(src); err != nil {
+	if src, err = reduceNodePath(src); err != nil {
 		return nil, err
 	}
 	return w.fs.ReadFile(w.basePath + src)
@@ -126,7 +126,7 @@ func (w *FilespaceWrapper) ReadFile(src string) (data []byte, err error) {
 
 // WriteFile write file data
 func (w *FilespaceWrapper) WriteFile(path string, data []byte, filemode os.FileMode) (err error) {
-	if path, err = varutil.ReduceAbsPath(path); err != nil {
+	if path, err = reduceNodePath(path); err != nil {
 		return err
 	}
 	return w.fs.WriteFile(w.basePath+path, data, filemode)
@@ -142,7 +142,7 @@ func (w *FilespaceWrapper) Filespace(path string) (childFS filesystem.Filespace,
 
 // Remove delete node by path
 func (w *FilespaceWrapper) Remove(path string) (err error) {
-	if path, err = varutil.ReduceAbsPath(path); err != nil {
+	if path, err = reduceNodePath(path); err != nil {
 		return err
 	}
 	return w.fs.Remove(w.basePath + path)
@@ -150,7 +150,7 @@ func (w *FilespaceWrapper) Remove(path string) (err error) {
 
 // RemoveAll delete node by path recursively
 func (w *FilespaceWrapper) RemoveAll(path string) (err error) {
-	if path, err = varutil.ReduceAbsPath(path); err != nil {
+	if path, err = reduceNodePath(path); err != nil {
 		return err
 	}
 	return w.fs.RemoveAll(w.basePath + path)
